@@ -6,6 +6,9 @@ CONFIG = dict(
         dict(suffix="-s", comparisons=[dict(name="model", code=100, kind="eq"),
                                        dict(name="spec", code=101, kind="holds", predicate=True)]),
         dict(suffix="-u", comparisons=[dict(name="spec", code=101, kind="holds", predicate=True)]),
+        # the limiter in front of the in-band report; by c01_rate_spec_characterises equality with the model is the
+        # property-level reading (reports spaced, unreported only if covered), so a difference is a failing input
+        dict(suffix="-r", comparisons=[dict(name="rate", code=102, kind="eq", predicate=True)]),
     ],
     trusted_base=QUEUE_TB,
     assumptions=QUEUE_ASSUMPTIONS + [
@@ -20,5 +23,9 @@ CONFIG = dict(
                 "Correspondence: (s) real producer threads + the real writer thread serialised at cfg(metrique_verif) sync points, seeded random "
                 "schedules and bounded-preemption systematic exploration of small plans; every run is replayed label by label through the "
                 "extracted `step` (writer pc, tracker data words and events compared after every label) and checked by c01_spec; "
-                "(u) unscheduled multi-threaded bursts checked by the specification only.",
+                "(u) unscheduled multi-threaded bursts checked by the specification only; "
+                "(r) 'rate-limited': theorems about the macro's function (reports spaced by the interval in whole seconds, at most "
+                "(hi-lo)/interval+1 of them, unreported only if covered, the same under any interleaving of several threads' loads and "
+                "compare-exchanges, u64 saturation) and the real limiter observed through a real queue with its clock forced "
+                "(cfg(metrique_verif) hook in rate_limit.rs): every operation sequence up to length 5/6 and random idle/burst patterns.",
 )
